@@ -2,6 +2,7 @@ import VelaVerif.Lemmas.EmitProg
 import VelaVerif.Spec.OpCheck
 import VelaVerif.Lemmas.EmitExample
 import VelaVerif.Model.Shram
+import VelaVerif.Model.Scaling
 /-!
 # C06 — the register command stream encodes exactly the operations it was given
 
@@ -140,6 +141,55 @@ theorem field_roundtrip_signed16 (v : Int) : s16 (mask16 v) = v ↔ -32768 ≤ v
 /-- 32-bit payload: exact iff the value is in [0, 2^32). -/
 theorem field_roundtrip_payload32 (v : Int) : ((mask32 v : Nat) : Int) = v ↔ 0 ≤ v ∧ v < 4294967296 := by
   unfold mask32; omega
+
+/-- **What the emitter does with a payload outside the field** (every integer): the register holds the residue modulo 2^32 —
+    the value `OpCheck.legaliseScale` assigns to an unrepresentable scale, so "the stream encodes the legalised operation" is
+    exactly what masking produces. -/
+theorem scale_mask_is_residue (v : Int) : ((mask32 v : Nat) : Int) = v % 4294967296 := by
+  unfold mask32; omega
+
+/-- a negative scale never reads back (corollary of `field_roundtrip_payload32`) -/
+theorem negative_scale_never_roundtrips (v : Int) (h : v < 0) : ((mask32 v : Nat) : Int) ≠ v := by
+  intro e
+  have := (field_roundtrip_payload32 v).mp e
+  omega
+
+/-- Witness (compiled network `lut` 0/186: int16 LEAKY_RELU alpha -2.0, ethos-u55-128): the OFM scale -1177933312 that
+    `high_level_command_to_npu_op` derives from the alpha constant's scale -2.0 is written as 3117033984; `legaliseScale` names
+    that value, and the operation `fits` check rejects the given one. -/
+theorem negative_ofm_scale_witness :
+    mask32 (-1177933312) = 3117033984 ∧
+    OpCheck.legaliseScale (some (-1177933312, 30)) = some (3117033984, 30) ∧
+    OpCheck.scaleOutside "ofmScale" (some (-1177933312, 30)) = ["ofmScale=-1177933312"] ∧
+    OpCheck.scaleOutside "ofmScale" (OpCheck.legaliseScale (some (-1177933312, 30))) = [] := by decide
+
+/-- **Why repair C06-20 changes nothing but the multiplier** (model of `scaling.quantise_scale`, `Model/Scaling.lean`, every
+    finite value): the pair computed for a negated scale is the pair of its magnitude with the multiplier negated — in particular the
+    *shift* is the same.  The repair gives the alpha constant of the int32 MUL the scale |alpha| instead of alpha: the OFM_SCALE shift
+    (the only part an int32 MUL uses) is unchanged, the multiplier becomes one the register can hold. -/
+theorem quantise_scale_negated (m : Nat) (e : Int) :
+    Scaling.quantiseScale (.fin true m e) =
+      (match Scaling.quantiseScale (.fin false m e) with
+       | .ok (s, sh) => .ok (-s, sh)
+       | .error err => .error err) := by
+  unfold Scaling.quantiseScale
+  by_cases h : m = 0 ∨ m ≥ 2 ^ 53 <;> simp [h]
+
+/-- non-vacuity: alpha = -2.0 (`m = 1, e = 1`) gives (-2^30, 29), |alpha| gives (2^30, 29) -/
+example : Scaling.quantiseScale (.fin true 1 1) = .ok (-1073741824, 29) ∧
+    Scaling.quantiseScale (.fin false 1 1) = .ok (1073741824, 29) := by decide
+
+/-- legalising is the identity on exactly the legal scales, and its result is always legal -/
+theorem legaliseScale_legal (s sh : Int) :
+    OpCheck.scaleOutside "x" (OpCheck.legaliseScale (some (s, sh))) = [] ∧
+    (OpCheck.legaliseScale (some (s, sh)) = some (s, sh) ↔ 0 ≤ s ∧ s < 4294967296) := by
+  constructor
+  · simp only [OpCheck.legaliseScale, OpCheck.scaleOutside]
+    have h1 : 0 ≤ s % 4294967296 := by omega
+    have h2 : s % 4294967296 < 4294967296 := by omega
+    simp [h1, h2]
+  · simp only [OpCheck.legaliseScale, Option.some.injEq, Prod.mk.injEq, and_true]
+    omega
 
 /-- what the decoder stores for `cmd1_with_address(cmd, a)`: payload + 2^32 · parameter -/
 def decodedAddress (a : Int) : Nat := mask32 a + 2 ^ 32 * mask16 (a / 4294967296)
